@@ -23,6 +23,11 @@ package c06
 //	                   (incl. attempts on the EVM module account's escrow), hands the admin role on
 //	bank_send, bank_multisend
 //	                   plain x/bank Cosmos txs between accounts (incl. attempts to pay the EVM module account)
+//	wasm_convert, wasm_create_coin, wasm_create_erc20, wasm_bank_send
+//	                   bridge messages reached THROUGH THE WASM PRECOMPILE: the forwarder calls Wasm.execute on a reflect.wasm
+//	                   contract it owns (account 7), which re-dispatches a Stargate MsgConvertCoinToEvm / MsgCreateFunToken /
+//	                   bank MsgSend with itself as signer, in the middle of the EVM tx, in any frame, also paired (seq) with a
+//	                   sendToBank / sendToEvm of the same tx
 //	seq                two ops in ONE transaction: two calls made by the forwarder in one EVM tx, or two
 //	                   messages of one signer in one Cosmos tx (both take effect or neither)
 //
@@ -33,10 +38,12 @@ package c06
 
 import (
 	"crypto/sha256"
+	"encoding/base64"
 	"encoding/hex"
 	"encoding/json"
 	"fmt"
 	"math/big"
+	"os"
 	"sort"
 	"strconv"
 	"strings"
@@ -44,6 +51,8 @@ import (
 	"time"
 
 	"github.com/NibiruChain/collections"
+	wasmtypes "github.com/CosmWasm/wasmd/x/wasm/types"
+	"github.com/cosmos/gogoproto/proto"
 	sdkmath "cosmossdk.io/math"
 	abci "github.com/cometbft/cometbft/abci/types"
 	"github.com/cosmos/cosmos-sdk/crypto/keys/secp256k1"
@@ -210,6 +219,7 @@ type world struct {
 	cos   [2]*secp256k1.PrivKey    // ids 3, 4
 	fwd   gethcommon.Address       // id 5
 	cold  gethcommon.Address       // id 6
+	wasm  sdk.AccAddress           // id 7: reflect.wasm instance owned by the forwarder (32-byte address, no EVM account)
 	toks  []gethcommon.Address     // token id -> address
 	inBlk int
 	// every denom string an op of this case has spelled so far (index lookups are made under each of them)
@@ -253,6 +263,58 @@ func newWorld(t *testing.T) *world {
 	return w
 }
 
+func repoDir() string {
+	if d := os.Getenv("VERIF_REPO"); d != "" {
+		return d
+	}
+	return "/repo"
+}
+
+var reflectCode []byte
+
+// setupWasm stores reflect.wasm and instantiates it with the forwarder contract as owner (only the owner may reflect).
+func (w *world) setupWasm() {
+	c := w.c
+	if reflectCode == nil {
+		code, err := os.ReadFile(repoDir() + "/x/devgas/v1/keeper/testdata/reflect.wasm")
+		if err != nil {
+			w.t.Fatal(err)
+		}
+		reflectCode = code
+	}
+	ctx := c.Ctx()
+	store := &wasmtypes.MsgStoreCode{Sender: w.eoa[0].NibiruAddr.String(), WASMByteCode: reflectCode}
+	rsp, err := c.App.MsgServiceRouter().Handler(store)(ctx, store)
+	if err != nil {
+		w.t.Fatal(err)
+	}
+	var sr wasmtypes.MsgStoreCodeResponse
+	if err := proto.Unmarshal(rsp.Data, &sr); err != nil {
+		w.t.Fatal(err)
+	}
+	inst := &wasmtypes.MsgInstantiateContract{Sender: eth.EthAddrToNibiruAddr(w.fwd).String(), CodeID: sr.CodeID, Label: "reflect", Msg: []byte(`{}`)}
+	rsp, err = c.App.MsgServiceRouter().Handler(inst)(ctx, inst)
+	if err != nil {
+		w.t.Fatal(err)
+	}
+	var ir wasmtypes.MsgInstantiateContractResponse
+	if err := proto.Unmarshal(rsp.Data, &ir); err != nil {
+		w.t.Fatal(err)
+	}
+	w.wasm = sdk.MustAccAddressFromBech32(ir.Address)
+}
+
+func usesWasm(ops []c06Op) bool {
+	for _, op := range ops {
+		for _, sub := range flatOps(op) {
+			if strings.HasPrefix(sub.K, "wasm_") {
+				return true
+			}
+		}
+	}
+	return false
+}
+
 func (w *world) tokAddr(t int) gethcommon.Address {
 	if t >= 0 && t < len(w.toks) {
 		return w.toks[t]
@@ -272,13 +334,23 @@ func (w *world) addr(id int) gethcommon.Address {
 		return w.fwd
 	case id == 6:
 		return w.cold
+	case id == 7:
+		return gethcommon.BytesToAddress(w.nibi(7)) // not an EVM account; only so that balanceOf has something to ask
 	case id >= 100:
 		return w.tokAddr(id - 100)
 	}
 	return gethcommon.BigToAddress(big.NewInt(int64(0xbeef0000) + int64(id)))
 }
 
-func (w *world) nibi(id int) sdk.AccAddress { return eth.EthAddrToNibiruAddr(w.addr(id)) }
+func (w *world) nibi(id int) sdk.AccAddress {
+	if id == 7 {
+		if w.wasm != nil {
+			return w.wasm
+		}
+		return sdk.AccAddress(append(make([]byte, 12), gethcommon.HexToAddress("0x00000000000000000000000000000000000a57a5").Bytes()...))
+	}
+	return eth.EthAddrToNibiruAddr(w.addr(id))
+}
 
 func (w *world) denom(d *denomRef) string {
 	if d == nil {
@@ -424,6 +496,14 @@ func (w *world) toStr(op c06Op) string {
 
 // evmOp sends (target, payload) directly from the EOA named by op.A or through the forwarder.
 func (w *world) evmOp(op c06Op, target gethcommon.Address, payload []byte) bool {
+	if target == precompile.PrecompileAddr_Wasm {
+		if op.Frame == "" || op.A != 5 || op.CallGas > 0 {
+			return false // the reflect contract obeys its owner, the forwarder, only
+		}
+		if op.Gas == 0 {
+			op.Gas = 6_000_000
+		}
+	}
 	if op.Frame == "" {
 		if op.A != 1 && op.A != 2 {
 			return false
@@ -524,6 +604,31 @@ func (w *world) encode(op c06Op) (gethcommon.Address, []byte, bool) {
 	case "erc20_burn":
 		target = w.tokAddr(op.T)
 		in, err = abiERC.Pack("burn", x)
+	case "wasm_convert", "wasm_create_coin", "wasm_create_erc20", "wasm_bank_send":
+		if w.wasm == nil {
+			return target, nil, false
+		}
+		self := w.wasm.String()
+		var m sdk.Msg
+		switch op.K {
+		case "wasm_convert":
+			m = &evm.MsgConvertCoinToEvm{Sender: self, BankCoin: sdk.Coin{Denom: w.denom(op.D), Amount: sdkmath.NewIntFromBigInt(x)},
+				ToEthAddr: eth.EIP55Addr{Address: w.addr(op.To)}}
+		case "wasm_create_coin":
+			m = &evm.MsgCreateFunToken{FromBankDenom: w.denom(op.D), Sender: self}
+		case "wasm_create_erc20":
+			m = &evm.MsgCreateFunToken{FromErc20: &eth.EIP55Addr{Address: w.tokAddr(op.T)}, Sender: self}
+		default:
+			m = &bank.MsgSend{FromAddress: self, ToAddress: w.nibi(op.To).String(),
+				Amount: sdk.Coins{sdk.Coin{Denom: w.denom(op.D), Amount: sdkmath.NewIntFromBigInt(x)}}}
+		}
+		bz, merr := proto.Marshal(m)
+		if merr != nil {
+			panic(merr)
+		}
+		payload := fmt.Sprintf(`{"reflect_msg":{"msgs":[{"stargate":{"type_url":"%s","value":"%s"}}]}}`, sdk.MsgTypeURL(m), base64.StdEncoding.EncodeToString(bz))
+		target = precompile.PrecompileAddr_Wasm
+		in, err = embeds.SmartContract_Wasm.ABI.Pack("execute", self, []byte(payload), []precompile.WasmBankCoin{})
 	default:
 		return target, nil, false
 	}
@@ -606,7 +711,11 @@ func (w *world) run(op c06Op) bool {
 			return false
 		}
 		return w.cosmosTx(op.A-3, m)
-	case "send_to_bank", "send_to_evm", "bank_msg_send", "erc20_transfer", "erc20_burn":
+	case "send_to_bank", "send_to_evm", "bank_msg_send", "erc20_transfer", "erc20_burn",
+		"wasm_convert", "wasm_create_coin", "wasm_create_erc20", "wasm_bank_send":
+		if strings.HasPrefix(op.K, "wasm_") && op.D == nil && op.K != "wasm_create_erc20" {
+			return false
+		}
 		target, in, ok := w.encode(op)
 		if !ok {
 			return false
@@ -634,7 +743,11 @@ func (w *world) run(op c06Op) bool {
 		data = append(data, p1...)
 		data = append(data, t2.Bytes()...)
 		data = append(data, p2...)
-		return w.ethTx(0, &w.fwd, data, 0)
+		gas := uint64(0)
+		if t1 == precompile.PrecompileAddr_Wasm || t2 == precompile.PrecompileAddr_Wasm {
+			gas = 8_000_000
+		}
+		return w.ethTx(0, &w.fwd, data, gas)
 	}
 	return false
 }
@@ -656,7 +769,7 @@ func bigStr(b *big.Int, err error) string {
 	return b.String()
 }
 
-var touchActors = []int{0, 1, 2, 3, 4, 5, 6}
+var touchActors = []int{0, 1, 2, 3, 4, 5, 6, 7}
 
 func (w *world) observe(op c06Op, ok bool) stepObs {
 	ctx, evmObj := w.queryEnv()
@@ -728,7 +841,7 @@ func (w *world) observe(op c06Op, ok bool) stepObs {
 	// after a CreateFunToken: what each index answers under every spelling of the named denom / for every contract
 	var created []c06Op
 	for _, sub := range flatOps(op) {
-		if sub.K == "create_coin" || sub.K == "create_erc20" {
+		if sub.K == "create_coin" || sub.K == "create_erc20" || sub.K == "wasm_create_coin" || sub.K == "wasm_create_erc20" {
 			created = append(created, sub)
 		}
 	}
@@ -744,7 +857,7 @@ func (w *world) observe(op c06Op, ok bool) stepObs {
 		}
 		for _, sub := range created {
 			named := denomRef{K: "e", N: sub.T}
-			if sub.K == "create_coin" {
+			if sub.K == "create_coin" || sub.K == "wasm_create_coin" {
 				if sub.D == nil {
 					continue
 				}
@@ -791,8 +904,10 @@ func (w *world) observe(op c06Op, ok bool) stepObs {
 		if ok {
 			tt = len(w.toks) - 1
 		}
-	case "send_to_bank", "erc20_transfer", "erc20_burn", "create_erc20":
+	case "send_to_bank", "erc20_transfer", "erc20_burn", "create_erc20", "wasm_create_erc20":
 		tt = op.T
+	case "wasm_convert", "wasm_create_coin", "wasm_bank_send":
+		td = op.D
 	case "fund", "convert", "send_to_evm", "bank_msg_send", "create_coin", "tf_create", "tf_mint", "tf_burn", "tf_change_admin", "bank_send", "bank_multisend":
 		td = op.D
 	}
@@ -890,6 +1005,7 @@ type gen struct {
 	tf    []denomRef       // factory denoms created so far
 	admin map[denomRef]int // … and their admins
 	ibc   []denomRef       // IBC vouchers (chain spelling) the bank knows
+	wasm  bool             // this history uses the reflect contract (account 7)
 }
 
 func gasPayer(d denomRef, a int) bool { return d.K == "g" && d.Sp == 0 && a >= 1 && a <= 4 }
@@ -984,6 +1100,36 @@ func (g *gen) pickMap(coin int) (shadowMap, bool) { // coin: 1 coin-born, 0 erc-
 		return shadowMap{}, false
 	}
 	return c[g.r.Intn(len(c))], true
+}
+
+var wasmFrames = []string{"plain", "revert_top", "inner_revert", "swallow", "once_then_reverted"}
+
+// wasmSub: a bridge message / bank send the forwarder has its reflect contract (account 7) dispatch through the Wasm precompile
+func (g *gen) wasmSub() c06Op {
+	r := g.r
+	d := g.randDenom()
+	if m, ok := g.pickMap(1); ok && !r.Chance(1, 6) {
+		d = &m.d
+	} else if m, ok := g.pickMap(-1); ok && !r.Chance(1, 6) {
+		d = &m.d
+	}
+	switch r.Pick(9, 5, 1, 1) {
+	case 0:
+		return c06Op{K: "wasm_convert", A: 5, D: d, X: g.amount(g.bbal(*d, 7)), To: g.anyTo(), Fmt: "hex"}
+	case 1:
+		return c06Op{K: "wasm_bank_send", A: 5, D: d, X: g.amount(g.bbal(*d, 7)), To: g.escrowOrAny()}
+	case 2:
+		cd := g.coinDenom()
+		return c06Op{K: "wasm_create_coin", A: 5, D: &cd}
+	default:
+		return c06Op{K: "wasm_create_erc20", A: 5, T: r.Intn(g.ntok + 1)}
+	}
+}
+
+func (g *gen) wasmOp() c06Op {
+	op := g.wasmSub()
+	op.Frame = wasmFrames[g.r.Pick(3, 3, 6, 4, 4)]
+	return op
 }
 
 // respell: another spelling of the same name
@@ -1216,6 +1362,11 @@ func (g *gen) note(op c06Op) {
 			g.addB(*op.D, op.A, -x)
 			g.addB(*op.D, op.To, x)
 		}
+	case "wasm_bank_send":
+		if effective && x > 0 && g.bbal(*op.D, 7) >= x && op.To != 0 {
+			g.addB(*op.D, 7, -x)
+			g.addB(*op.D, op.To, x)
+		}
 	}
 }
 
@@ -1223,7 +1374,13 @@ var evmActors = []int{1, 2, 5}
 
 func (g *gen) randomOp() {
 	r := g.r
-	switch r.Pick(6, 7, 15, 18, 15, 6, 13, 5, 3, 2, 12, 12, 10) {
+	switch r.Pick(6, 7, 15, 18, 15, 6, 13, 5, 3, 2, 12, 12, 10, 12) {
+	case 13: // through the Wasm precompile
+		if g.wasm {
+			g.push(g.wasmOp())
+		} else {
+			g.push(g.spellingOp())
+		}
 	case 12: // the same name under another spelling
 		g.push(g.spellingOp())
 	case 0: // create from coin
@@ -1419,6 +1576,16 @@ func (g *gen) gasSub(m shadowMap) c06Op {
 
 func (g *gen) seqOp() c06Op {
 	r := g.r
+	if g.wasm && r.Chance(1, 3) {
+		// a message dispatched through the Wasm precompile and another bridge call in the SAME transaction
+		a, b := g.wasmSub(), g.evmSub()
+		if r.Chance(1, 4) {
+			a, b = b, a
+		} else if r.Chance(1, 5) {
+			b = g.wasmSub()
+		}
+		return c06Op{K: "seq", A: 5, Ops: []c06Op{a, b}}
+	}
 	if m, ok := g.mapOfDen(denomRef{K: "g"}); ok && r.Chance(1, 2) {
 		a, b := g.gasSub(m), g.gasSub(m)
 		if r.Chance(1, 3) {
@@ -1522,6 +1689,22 @@ func genCase(r *Rng) []c06Op {
 	// mostly create the mappings early
 	if r.Chance(4, 5) {
 		g.push(c06Op{K: "create_coin", A: 3, D: &denomRef{K: "c", N: r.Intn(nd)}})
+	}
+	// the reflect contract of the forwarder holds coins of the (to be) mapped denoms, sometimes enough unibi for a creation fee
+	if r.Chance(9, 20) {
+		g.wasm = true
+		for d := 0; d < nd; d++ {
+			g.push(c06Op{K: "fund", A: 7, D: &denomRef{K: "c", N: d}, X: strconv.Itoa(r.Range(100, 2000))})
+		}
+		for _, m := range g.maps {
+			if m.coin && m.d.K != "c" && !gasPayer(m.d, 1) {
+				g.push(c06Op{K: "fund", A: 7, D: &denomRef{K: m.d.K, N: m.d.N, Sp: m.d.Sp}, X: strconv.Itoa(r.Range(100, 2000))})
+			}
+		}
+		if r.Chance(1, 2) {
+			g.push(c06Op{K: "fund", A: 7, D: &denomRef{K: "g"}, X: "20000000500"})
+		}
+		g.push(g.wasmOp())
 	}
 	if r.Chance(9, 10) {
 		g.push(c06Op{K: "create_erc20", A: 4, T: r.Intn(g.ntok)})
@@ -1633,6 +1816,33 @@ func openers() [][]c06Op {
 			{K: "send_to_bank", A: 5, T: 0, X: "40", To: 3, Fmt: "hex", Frame: "swallow"},
 			{K: "erc20_transfer", A: 5, T: 0, X: "10", To: 0, Frame: "plain"},
 			{K: "send_to_bank", A: 1, T: 0, X: "1", To: 3, Fmt: "hex"},
+		}),
+		// bridge messages through the Wasm precompile: refused inside the EVM tx, in every frame; bank sends of the mapped coin
+		// by the contract around the escrow; then everything redeemable is redeemed
+		cat(pre, []c06Op{
+			{K: "create_coin", A: 3, D: c0}, {K: "convert", A: 3, D: c0, X: "600", To: 1, Fmt: "hex"},
+			{K: "fund", A: 7, D: c0, X: "500"}, {K: "fund", A: 7, D: &denomRef{K: "g"}, X: "20000000500"},
+			{K: "meta", D: &denomRef{K: "c", N: 1}},
+			{K: "wasm_convert", A: 5, D: c0, X: "100", To: 1, Fmt: "hex", Frame: "inner_revert"},
+			{K: "wasm_convert", A: 5, D: c0, X: "100", To: 1, Fmt: "hex", Frame: "swallow"},
+			{K: "wasm_convert", A: 5, D: c0, X: "100", To: 2, Fmt: "hex", Frame: "plain"},
+			{K: "wasm_convert", A: 5, D: c0, X: "100", To: 2, Fmt: "hex", Frame: "revert_top"},
+			{K: "wasm_convert", A: 5, D: c0, X: "100", To: 1, Fmt: "hex", Frame: "once_then_reverted"},
+			{K: "wasm_create_coin", A: 5, D: &denomRef{K: "c", N: 1}, Frame: "inner_revert"},
+			{K: "wasm_create_coin", A: 5, D: &denomRef{K: "c", N: 1}, Frame: "plain"},
+			{K: "create_coin", A: 4, D: &denomRef{K: "c", N: 1}},
+			{K: "wasm_bank_send", A: 5, D: c0, X: "30", To: 4, Frame: "plain"},
+			{K: "wasm_bank_send", A: 5, D: c0, X: "30", To: 0, Frame: "swallow"},
+			{K: "wasm_bank_send", A: 5, D: c0, X: "30", To: 4, Frame: "inner_revert"},
+			{K: "wasm_bank_send", A: 5, D: c0, X: "20", To: 5, Frame: "once_then_reverted"},
+			{K: "seq", A: 5, Ops: []c06Op{{K: "wasm_convert", A: 5, D: c0, X: "50", To: 5, Fmt: "hex"}, {K: "send_to_evm", A: 5, D: c0, X: "10", To: 1, Fmt: "hex"}}},
+			{K: "seq", A: 5, Ops: []c06Op{{K: "wasm_bank_send", A: 5, D: c0, X: "40", To: 5}, {K: "send_to_evm", A: 5, D: c0, X: "25", To: 5, Fmt: "hex"}}},
+			{K: "seq", A: 5, Ops: []c06Op{{K: "send_to_bank", A: 5, T: 0, X: "5", To: 4, Fmt: "hex"}, {K: "wasm_bank_send", A: 5, D: c0, X: "7", To: 1}}},
+			{K: "deploy", A: 1, Kind: "std"},
+			{K: "wasm_create_erc20", A: 5, T: 2, Frame: "swallow"},
+			{K: "send_to_bank", A: 1, T: 0, X: "700", To: 4, Fmt: "bech32"},
+			{K: "send_to_bank", A: 1, T: 0, X: "600", To: 4, Fmt: "bech32"},
+			{K: "send_to_bank", A: 2, T: 0, X: "100", To: 4, Fmt: "bech32"},
 		}),
 		// one name, several strings: an IBC voucher and the same hash in lower / mixed case, "UCOIN0", a lower-case
 		// "erc20/0x…": each string is its own bank denom (own metadata, own mapping, own escrow)
@@ -1746,6 +1956,9 @@ func TestC06(t *testing.T) {
 	defer em.Close()
 	run := func(ops []c06Op) {
 		w := newWorld(t)
+		if usesWasm(ops) {
+			w.setupWasm()
+		}
 		em.Emit(ops, w.runCase(ops), nil)
 	}
 	if cfg.Replay != "" {
